@@ -346,6 +346,41 @@ void dimk(const int W, const int H, const int *in, int *out) {
     }
   }
 }''', [('int', 'N', 0, 2)], [('int', 'in', A8, 'in'), ('int', 'out', A8, 'out')], feats='@shared reused across iterations of a sequential loop with @barrier inside the loop'))
+    P.append(K('sharedauto', '''
+@kernel void sharedauto(const int N, const int *in, int *out) {
+  for (int b = 0; b < N; ++b; @outer) {
+    @shared int s[2];
+    @exclusive int acc;
+    for (int t = 0; t < 2; ++t; @inner) {
+      acc = 0;
+    }
+    for (int r = 0; r < 2; ++r) {
+      for (int t = 0; t < 2; ++t; @inner) {
+        s[t] = in[b * 4 + r * 2 + t];
+      }
+      for (int t = 0; t < 2; ++t; @inner) {
+        acc += (r + 1) * s[1 - t];
+      }
+    }
+    for (int t = 0; t < 2; ++t; @inner) {
+      out[b * 2 + t] = acc;
+    }
+  }
+}''', [('int', 'N', 0, 2)], [('int', 'in', A8, 'in'), ('int', 'out', A8, 'out')], feats='@shared tile reloaded in every iteration of a sequential loop WITHOUT explicit @barrier: the barrier after the read-only @inner loop must be inserted by occa',
+             ref='''
+void sharedauto(const int N, const int *in, int *out) {
+  for (int b = 0; b < N; ++b) {
+    int acc[2] = {0, 0};
+    for (int r = 0; r < 2; ++r) {
+      for (int t = 0; t < 2; ++t) {
+        acc[t] += (r + 1) * in[b * 4 + r * 2 + (1 - t)];
+      }
+    }
+    for (int t = 0; t < 2; ++t) {
+      out[b * 2 + t] = acc[t];
+    }
+  }
+}'''))
     P.append(K('exclstride', '''
 @kernel void exclstride(const int N, const int *in, int *out) {
   for (int b = N - 1; b >= 0; --b; @outer) {
